@@ -437,6 +437,7 @@ def run(tier):
     rule_R7(res, prog)
     rule_R8(res, prog)
     rule_R9(res, prog)
+    rule_R10(res, prog)
     res.floor("C19.R1", 150)
     res.floor("C19.R2", 3)
     res.floor("C19.R3", 30)
@@ -1316,3 +1317,100 @@ def rule_R9(res, prog):
                                  fn.relfile, hit[0], fn.name, v["n"], hit[0], hit[1]), file=fn.relfile, line=hit[0])
             res.instance(rid, "%s: %s released at %d sites" % (fn.name, v["n"], cnt), not hit, finding=f_)
     res.floor(rid, 30)
+
+
+def rule_R10(res, prog):
+    """'no double free' on the failure paths of deep copies: a whole-structure copy (memcpy(dst, src, sizeof(T))) makes
+    every pointer member of *dst an alias of memory the SOURCE owns.  Until such a member has been overwritten (NULL or
+    dst's own allocation), no path - in particular no allocation-failure path - may hand dst or its owner to a
+    releasing function: that would free the source's buffer, which its owner frees again later."""
+    from sa import cfgutil as cu
+    import re
+    rid = "C19.R10"
+    res.rule(rid, "after a whole-structure copy, no release of the destination (or its owner) is reachable while a pointer member "
+                  "still aliases the source's allocation")
+    MEMCPY = ("memcpy", "__builtin_memcpy", "__builtin___memcpy_chk", "memmove", "__builtin___memmove_chk")
+    REL = re.compile(r"[Ff]ree|Delete|Clear|Uninit|Release")
+
+    def ptr_fields(rec, prefix="", depth=0):
+        out = []
+        r = prog.records.get(rec)
+        if r is None or depth > 2:
+            return out
+        for f in r["fields"]:
+            t = f.get("t") or ""
+            if t.endswith("*") and "(" not in t and "const char *" != t:
+                out.append(prefix + f["n"])
+            elif f.get("rec") and not f.get("alen"):
+                out += ptr_fields(f["rec"], prefix + f["n"] + ".", depth + 1)
+        return out
+    n = 0
+    for fn in sorted(prog.functions.values(), key=lambda f: (f.relfile, f.line)):
+        if not fn.blocks or "/test/" in fn.relfile or not (fn.relfile.startswith("matrixssl/") or fn.relfile.startswith("crypto/") or fn.relfile.startswith("core/")):
+            continue
+        for b in fn.blocks:
+            for i, ln, x in cu.block_exprs(b):
+                for call in walk(x):
+                    if not (call.get("k") == "call" and call.get("fn") in MEMCPY and len(call.get("a", [])) >= 3):
+                        continue
+                    d = strip(call["a"][0])
+                    while d is not None and d.get("k") == "cast":
+                        d = strip(d["e"])
+                    t = ((d or {}).get("t") or "").replace("struct ", "").replace("const ", "").strip()
+                    if not t.endswith("*") or t.count("*") != 1:
+                        continue
+                    rec = t[:-1].strip()
+                    r = prog.records.get(rec)
+                    sz = strip(call["a"][2])
+                    if r is None or sz is None or sz.get("k") != "int" or sz["v"] != r.get("size"):
+                        continue
+                    pf = ptr_fields(rec)
+                    if not pf:
+                        continue
+                    if d.get("k") == "un" and d["op"] == "&":
+                        base = cu.ftext(d["e"])
+                        lv = lambda f, base=base: "%s.%s" % (base, f)
+                        owner = base.split("->")[0].split(".")[0]
+                        local = (strip(d["e"]) or {}).get("k") == "var" and strip(d["e"]).get("sc") == "l"
+                    else:
+                        base = cu.ftext(d)
+                        lv = lambda f, base=base: "%s->%s" % (base, f)
+                        owner = base.split("->")[0].split(".")[0]
+                        local = False
+                    n += 1
+                    bad = None
+                    for f in pf:
+                        want = lv(f).replace("(", "").replace(")", "")
+
+                        def overwrites(y, want=want):
+                            return any(m.get("k") == "bin" and m["op"] == "=" and cu.ftext(m["l"]).replace("(", "").replace(")", "") == want
+                                       for m in walk(y))
+
+                        def releases(y, base=base, owner=owner):
+                            for m in walk(y):
+                                if m.get("k") == "call" and m.get("fn") and REL.search(m["fn"]):
+                                    for a in m.get("a", []):
+                                        a0 = strip(a)
+                                        while a0 is not None and a0.get("k") == "cast":
+                                            a0 = strip(a0["e"])
+                                        if a0 is not None and a0.get("k") == "un" and a0["op"] == "&":
+                                            a0 = strip(a0["e"])
+                                        tx = cu.ftext(a0) if a0 is not None else ""
+                                        if tx in (base, owner) or tx.replace("(", "").replace(")", "") == want:
+                                            return True
+                            return False
+                        esc = cu.escapes(fn, (b["id"], i), overwrites, target_expr=releases)
+                        if esc is not None:
+                            bad = (f, esc)
+                            break
+                    f_ = None
+                    if bad:
+                        f_ = Finding(PROP, rid, fn.name, "destination of a structure copy released while `%s` still aliases the source" % bad[0],
+                                     "%s:%s %s(): after memcpy(%s, .., sizeof(%s)) the member %s points into memory owned by the source; the "
+                                     "release at line %s is reachable (via lines %s) before that member is overwritten - e.g. when an "
+                                     "allocation in between fails - so the source's buffer is freed here and again by its owner (double "
+                                     "free / use after free)" % (fn.relfile, ln, fn.name, base, rec, lv(bad[0]), bad[1][-1][1],
+                                                                [p_[1] for p_ in bad[1][-6:-1]]), file=fn.relfile, line=ln)
+                    res.instance(rid, "%s:%s memcpy(%s, sizeof(%s)): %d pointer member(s) overwritten before any release" % (
+                        fn.name, ln, base, rec, len(pf)), bad is None, finding=f_)
+    res.floor(rid, 1)
